@@ -818,3 +818,214 @@ Proof.
   rewrite disp_snoc. apply Forall_app in Hg as [Hl Hb]. inversion Hb as [|b' r Hb' _]; subst.
   rewrite !basename_render; auto. apply gcomp_map_lower; assumption.
 Qed.
+
+(* ------------------------------------------------------------------ is_subpath *)
+Definition lowc (cv : conv) (s : str) : str := if cv_cs cv then s else lower cv s.
+
+Lemma lowc_length cv s : length (lowc cv s) = length s.
+Proof. unfold lowc. destruct (cv_cs cv); [reflexivity|apply lower_length]. Qed.
+
+Lemma lowc_app cv a b : lowc cv (a ++ b) = lowc cv a ++ lowc cv b.
+Proof. unfold lowc. destruct (cv_cs cv); [reflexivity|apply lower_app]. Qed.
+
+Lemma lowc_sep_iff cv (Hok : conv_ok cv) s : lowc cv s = [cv_sep cv] <-> s = [cv_sep cv].
+Proof.
+  unfold lowc. destruct (cv_cs cv) eqn:Hc; [reflexivity|]. apply lower_sep_iff. apply Hok. exact Hc.
+Qed.
+
+Lemma lowc_cons_sep cv (Hok : conv_ok cv) s : lowc cv (cv_sep cv :: s) = cv_sep cv :: lowc cv s.
+Proof.
+  unfold lowc. destruct (cv_cs cv) eqn:Hc; [reflexivity|]. simpl. rewrite (fold_sep cv (Hok Hc)). reflexivity.
+Qed.
+
+Lemma is_subpath_eq cv f t st : f <> [] -> t <> [] ->
+  is_subpath cv f t st =
+  let ff := nps cv f in
+  let tf := nps cv t in
+  let fc := lowc cv ff in
+  let tc := lowc cv tf in
+  if str_eqb fc tc then (if st then NotSub else Rel [cv_sep cv])
+  else if (str_eqb fc [cv_sep cv] && str_eqb (firstn 1 tc) [cv_sep cv])%bool then Rel tf
+  else if Nat.ltb (length ff) (length tf) then
+    match nth_error tf (length ff) with
+    | Some y => if N.eqb y (cv_sep cv)
+                then (if startswith tc fc then Rel (skipn (length ff) tf) else NotSub)
+                else NotSub
+    | None => NotSub
+    end
+  else NotSub.
+Proof. intros Hf Ht. destruct f; [contradiction|]. destruct t; [contradiction|]. reflexivity. Qed.
+
+Lemma is_subpath_nil_l cv t st : is_subpath cv [] t st = NotSub.
+Proof. reflexivity. Qed.
+
+Lemma is_subpath_nil_r cv f st : is_subpath cv f [] st = NotSub.
+Proof. destruct f; reflexivity. Qed.
+
+Lemma is_subpath_args cv f t st : is_subpath cv f t st <> NotSub -> f <> [] /\ t <> [].
+Proof.
+  intros H. split; intros ->; apply H; [apply is_subpath_nil_l|apply is_subpath_nil_r].
+Qed.
+
+(* the relative part is never the empty string (so Python's truthiness test is exact) *)
+Lemma is_subpath_rel_nonempty cv f t st r : is_subpath cv f t st = Rel r -> r <> [].
+Proof.
+  intros H. assert (Hne : is_subpath cv f t st <> NotSub) by (rewrite H; discriminate).
+  apply is_subpath_args in Hne as [Hf Ht]. rewrite is_subpath_eq in H by assumption. cbv zeta in H.
+  destruct (str_eqb _ _) in H.
+  - destruct st; [discriminate|]. injection H as <-. discriminate.
+  - destruct (andb _ _) eqn:E in H.
+    + injection H as <-. apply andb_true_iff in E as [_ E]. apply str_eqb_eq in E.
+      intros En. rewrite En in E. unfold lowc in E. destruct (cv_cs cv); discriminate.
+    + destruct (Nat.ltb_spec (length (nps cv f)) (length (nps cv t))) as [Hl|Hl]; [|discriminate].
+      destruct (nth_error _ _); [|discriminate]. destruct (N.eqb _ _); [|discriminate].
+      destruct (startswith _ _); [|discriminate]. injection H as <-.
+      intros En. apply (f_equal (@length N)) in En. rewrite skipn_length in En. simpl in En. lia.
+Qed.
+
+(* shape of a relative part *)
+Definition relpart (cv : conv) (rel : str) : Prop :=
+  exists r', rel = cv_sep cv :: r' /\ r' <> [] /\ noalt cv rel /\ rstrip (cv_sep cv) rel = rel.
+
+Lemma rstrip_suffix_fix c a b : rstrip c (a ++ b) = a ++ b -> b <> [] -> rstrip c b = b.
+Proof.
+  intros H Hb. destruct (rstrip c b) eqn:E.
+  - rewrite rstrip_app_drop in H by exact E. exfalso.
+    pose proof (rstrip_decomp c a) as [n Hn]. apply (f_equal (@length N)) in H.
+    apply (f_equal (@length N)) in Hn. rewrite !app_length in *. destruct b; [contradiction|]. simpl in H. lia.
+  - rewrite rstrip_app_keep in H by (rewrite E; discriminate). apply app_inv_head in H. congruence.
+Qed.
+
+Lemma is_subpath_rel_shape cv (Hok : conv_ok cv) f t st rel :
+  is_subpath cv f t st = Rel rel -> rel = [cv_sep cv] \/ relpart cv rel.
+Proof.
+  intros H. assert (Hne : is_subpath cv f t st <> NotSub) by (rewrite H; discriminate).
+  apply is_subpath_args in Hne as [Hf Ht]. rewrite is_subpath_eq in H by assumption. cbv zeta in H.
+  destruct (str_eqb_spec (lowc cv (nps cv f)) (lowc cv (nps cv t))) as [Eq|Eq].
+  - destruct st; [discriminate|]. injection H as <-. left. reflexivity.
+  - destruct (andb _ _) eqn:E in H.
+    + injection H as <-. apply andb_true_iff in E as [E1 E2]. apply str_eqb_eq in E1, E2. right.
+      assert (Hnr : nps cv t <> [cv_sep cv]).
+      { intros Hs. apply Eq. rewrite E1, Hs. symmetry. apply lowc_sep_iff; [exact Hok|reflexivity]. }
+      assert (Hhd : exists r', nps cv t = cv_sep cv :: r').
+      { destruct (nps cv t) as [|x r'].
+        - unfold lowc in E2. destruct (cv_cs cv); discriminate.
+        - exists r'. f_equal. unfold lowc in E2. destruct (cv_cs cv) eqn:Hc; simpl in E2; injection E2 as E2; [exact E2|].
+          apply (fold_sep_inv cv (Hok Hc)). exact E2. }
+      destruct Hhd as [r' Hr']. exists r'. split; [exact Hr'|]. split.
+      * intros ->. contradiction.
+      * split; [apply nps_noalt|]. destruct (nps_shape cv t) as [Hs|Hs]; [contradiction|exact Hs].
+    + destruct (Nat.ltb_spec (length (nps cv f)) (length (nps cv t))) as [Hl|Hl]; [|discriminate].
+      destruct (nth_error (nps cv t) (length (nps cv f))) as [y|] eqn:En; [|discriminate].
+      destruct (N.eqb_spec y (cv_sep cv)) as [->|]; [|discriminate].
+      destruct (startswith _ _); [|discriminate]. injection H as <-.
+      pose proof (firstn_skipn (length (nps cv f)) (nps cv t)) as Hsplit.
+      set (n := length (nps cv f)) in *. set (tf := nps cv t) in *.
+      assert (Hsk : exists r', skipn n tf = cv_sep cv :: r').
+      { clearbody n tf. clear -En. revert n En. induction tf as [|z tf IH]; intros [|n] En; simpl in *; try discriminate.
+        - injection En as ->. eexists. reflexivity.
+        - apply IH. exact En. }
+      destruct Hsk as [r' Hr']. destruct r' as [|z r'']; [left; exact Hr'|right].
+      exists (z :: r''). split; [exact Hr'|]. split; [discriminate|]. split.
+      * eapply noalt_incl; [|apply (nps_noalt cv t)]. fold tf. rewrite <- Hsplit at 2. apply incl_appr, incl_refl.
+      * destruct (nps_shape cv t) as [Hs|Hs]; fold tf in Hs.
+        -- exfalso. assert (Hlen : length (skipn n tf) <= length tf) by (rewrite skipn_length; lia).
+           rewrite Hr', Hs in Hlen. simpl in Hlen. lia.
+        -- rewrite <- Hsplit in Hs. apply rstrip_suffix_fix in Hs; [exact Hs|rewrite Hr'; discriminate].
+Qed.
+
+(* the core: below a non-root folder, and below the root *)
+Lemma nps_app_relpart cv ff rel : noalt cv ff -> relpart cv rel -> nps cv (ff ++ rel) = ff ++ rel.
+Proof.
+  intros Hn [r' [-> [Hr [Hna Hrs]]]]. apply nps_fix; [apply noalt_app; split; assumption|].
+  right. rewrite rstrip_app_keep by (rewrite Hrs; discriminate). rewrite Hrs. reflexivity.
+Qed.
+
+Lemma is_subpath_under cv (Hok : conv_ok cv) f rel st :
+  f <> [] -> nps cv f <> [cv_sep cv] -> relpart cv rel ->
+  is_subpath cv f (nps cv f ++ rel) st = Rel rel.
+Proof.
+  intros Hf Hroot Hrel. pose proof Hrel as [r' [E [Hr [Hna Hrs]]]].
+  rewrite is_subpath_eq; [|exact Hf|subst rel; destruct (nps cv f); discriminate]. cbv zeta.
+  rewrite (nps_app_relpart cv _ _ (nps_noalt cv f) Hrel). rewrite lowc_app.
+  destruct (str_eqb_spec (lowc cv (nps cv f)) (lowc cv (nps cv f) ++ lowc cv rel)) as [Eq|_].
+  { exfalso. apply (f_equal (@length N)) in Eq. rewrite app_length, !lowc_length in Eq. subst rel. simpl in Eq. lia. }
+  destruct (str_eqb_spec (lowc cv (nps cv f)) [cv_sep cv]) as [Eq|_].
+  { exfalso. apply Hroot. apply (lowc_sep_iff cv Hok). exact Eq. }
+  cbn [andb].
+  destruct (Nat.ltb_spec (length (nps cv f)) (length (nps cv f ++ rel))) as [_|Hl];
+    [|rewrite app_length in Hl; subst rel; simpl in Hl; lia].
+  rewrite E at 1. rewrite nth_error_len_app, N.eqb_refl, startswith_app, skipn_len_app. reflexivity.
+Qed.
+
+Lemma is_subpath_root cv (Hok : conv_ok cv) f rel st :
+  nps cv f = [cv_sep cv] -> relpart cv rel -> is_subpath cv f rel st = Rel rel.
+Proof.
+  intros Hroot Hrel. pose proof Hrel as [r' [E [Hr [Hna Hrs]]]].
+  assert (Hnr : nps cv rel = rel) by (apply nps_fix; [exact Hna|right; exact Hrs]).
+  rewrite is_subpath_eq; [|intros ->; discriminate|subst rel; discriminate]. cbv zeta.
+  rewrite Hroot, Hnr.
+  assert (Hls : lowc cv [cv_sep cv] = [cv_sep cv]) by (apply lowc_sep_iff; [exact Hok|reflexivity]).
+  rewrite Hls.
+  destruct (str_eqb_spec [cv_sep cv] (lowc cv rel)) as [Eq|_].
+  { exfalso. apply (f_equal (@length N)) in Eq. rewrite lowc_length in Eq. subst rel. destruct r'; [contradiction|discriminate]. }
+  rewrite str_eqb_refl. rewrite E at 1. rewrite lowc_cons_sep by exact Hok. simpl firstn. rewrite str_eqb_refl.
+  reflexivity.
+Qed.
+
+(* ------------------------------------------------------------------ prefix sibling *)
+Lemma prefix_sibling cv (Hok : conv_ok cv) f c s st :
+  nps cv f <> [] -> nps cv f <> [cv_sep cv] -> c <> cv_sep cv -> cv_alt cv <> Some c ->
+  is_subpath cv f (nps cv f ++ c :: s) st = NotSub.
+Proof.
+  intros Hne Hroot Hc Hca. set (ff := nps cv f) in *.
+  assert (Hf : f <> []) by (intros ->; apply Hne; reflexivity).
+  assert (Hcn : noalt cv [c]) by (intros a Ha _ [<-|[]]; apply Hca; exact Ha).
+  assert (Htf : exists s', nps cv (ff ++ c :: s) = ff ++ c :: s').
+  { rewrite nps_eq. rewrite rp_app. change (c :: s) with ([c] ++ s). rewrite rp_app.
+    rewrite (rp_noalt cv ff (nps_noalt cv f)), (rp_noalt cv [c] Hcn).
+    destruct (str_eqb_spec (ff ++ [c] ++ rp cv s) [cv_sep cv]) as [E|_].
+    { exfalso. destruct ff as [|x [|y ff']]; [contradiction| |]; simpl in E; discriminate. }
+    exists (rstrip (cv_sep cv) (rp cv s)). simpl app.
+    assert (Hk : rstrip (cv_sep cv) (c :: rp cv s) = c :: rstrip (cv_sep cv) (rp cv s)) by (apply rstrip_head; exact Hc).
+    rewrite rstrip_app_keep by (rewrite Hk; discriminate). rewrite Hk. reflexivity. }
+  destruct Htf as [s' Htf].
+  rewrite is_subpath_eq; [|exact Hf|destruct ff; discriminate]. cbv zeta. fold ff. rewrite Htf, lowc_app.
+  destruct (str_eqb_spec (lowc cv ff) (lowc cv ff ++ lowc cv (c :: s'))) as [Eq|_].
+  { exfalso. apply (f_equal (@length N)) in Eq. rewrite app_length, !lowc_length in Eq. simpl in Eq. lia. }
+  destruct (str_eqb_spec (lowc cv ff) [cv_sep cv]) as [Eq|_].
+  { exfalso. apply Hroot. apply (lowc_sep_iff cv Hok). exact Eq. }
+  cbn [andb]. rewrite nth_error_len_app.
+  destruct (N.eqb_spec c (cv_sep cv)); [contradiction|].
+  destruct (Nat.ltb _ _); reflexivity.
+Qed.
+
+(* ------------------------------------------------------------------ replace_path *)
+Lemma replace_moves_rel cv f p t rel :
+  is_subpath cv f p false = Rel rel ->
+  replace_path cv p f t = RepOk (nps cv t ++ (if str_eqb rel [cv_sep cv] then [] else rel)).
+Proof.
+  intros H. unfold replace_path. rewrite H. pose proof (is_subpath_rel_nonempty _ _ _ _ _ H) as Hne.
+  destruct rel; [contradiction|reflexivity].
+Qed.
+
+Lemma replace_iff_sub cv f p t :
+  replace_path cv p f t = RepValueError <-> is_subpath cv f p false = NotSub.
+Proof.
+  unfold replace_path. destruct (is_subpath cv f p false) as [|rel] eqn:H.
+  - split; reflexivity.
+  - pose proof (is_subpath_rel_nonempty _ _ _ _ _ H) as Hne.
+    destruct rel; [contradiction|]. split; discriminate.
+Qed.
+
+Lemma replace_lands_inside cv (Hok : conv_ok cv) f p t rel out :
+  is_subpath cv f p false = Rel rel -> rel <> [cv_sep cv] ->
+  t <> [] -> nps cv t <> [cv_sep cv] ->
+  replace_path cv p f t = RepOk out ->
+  is_subpath cv t out false = Rel rel.
+Proof.
+  intros H Hrel Ht Hroot Hrep. rewrite (replace_moves_rel _ _ _ _ _ H) in Hrep. injection Hrep as <-.
+  destruct (str_eqb_spec rel [cv_sep cv]) as [E|_]; [contradiction|].
+  destruct (is_subpath_rel_shape cv Hok _ _ _ _ H) as [E|Hs]; [contradiction|].
+  apply is_subpath_under; assumption.
+Qed.
